@@ -662,6 +662,13 @@ def run(chk, repo, tier):
     _scalar_product_rule(chk, repo, 'C04-e')
     from .extent_rules import extent_identities as _extent_identities4
     _extent_identities4(chk, repo, 'C04-e')
+    from .extent_rules import mask_window_identities as _mask_window_identities4
+    _mask_window_identities4(chk, repo, 'C04-e')
+    # the angle a fit records is OPD slope over the pixel scale of its own axis: a rescaled plane keeps one scale per axis
+    from . import c17 as _c17_4
+    nd4b = list(chk.not_decided)
+    _run_nested(_c17_4, _Remap(chk, {'C17-a': 'C04-f'}), repo, tier)
+    chk.not_decided[:] = nd4b
     # a fit on a copy (the default) leaves the original as it was: the copy has tilt list and arrays of its own
     from .c10 import plane_copy_rules as _plane_copy_rules
     _plane_copy_rules(chk, repo, 'C04-f')
